@@ -101,6 +101,14 @@ CHECKS = {
              "output' on the pinned commit (both fixed).",
         design="4/C18",
         note="Trusted base: the injectors (vf/checks/c18.py) produce only instances the rules as stated cover; Hypothesis."),
+    "C17": dict(
+        technique="property-based testing (Hypothesis): grammar-based generation of structures for the five grammars rendered with random insignificant whitespace; round-trip oracle through the public parser classes and an independent tree extractor; mutation-based near-miss strings with a losslessness oracle",
+        text="Generated-input search: (a) structures for Einsum expressions, partitioning directives, rank tuples, spacetime stamps and level "
+             "names are rendered with random spaces/tabs, parsed by the public parser classes, read back by an independent extractor and "
+             "compared with what was written (level names also through Architecture: num == N+1); (b) mutated and random strings must be "
+             "rejected or else be lossless, which decides 'no partial parse' without an independent membership test.",
+        design="4/C17",
+        note="Trusted base: vf/refparse.py (tree walker by rule names), the renderer in vf/checks/c17.py, Hypothesis."),
 }
 
 NOT_APPLICABLE = {}
